@@ -79,7 +79,11 @@ impl<'a> Evaluator<'a> {
                     let a = self.next(*a).eval(chunk)?;
                     a.like(pattern)
                 }
-                _ => panic!("like pattern must be a string constant"),
+                _ => {
+                    let a = self.next(*a).eval(chunk)?;
+                    let b = self.next(*b).eval(chunk)?;
+                    a.like_array(&b)
+                }
             },
             Extract([field, a]) => {
                 let a = self.next(*a).eval(chunk)?;
